@@ -216,10 +216,18 @@ func c04Leaves() []c04Leaf {
 		{name: "NginxProxy.logging.errorLevel", benign: "info", mustReport: true, set: func(_ *vsCluster, e *c04Extras, v string) {
 			e.np.Spec.Logging.ErrorLevel = helpers.GetPointer(ngfAPIv1alpha1.NginxErrorLogLevel(v))
 		}},
-		{name: "NginxProxy.ipFamily", benign: "dual", mustReport: true, set: func(_ *vsCluster, e *c04Extras, v string) { e.np.Spec.IPFamily = helpers.GetPointer(ngfAPIv1alpha1.IPFamilyType(v)) }},
-		{name: "ClientSettingsPolicy.body.maxSize", benign: "10m", mustReport: true, set: func(_ *vsCluster, e *c04Extras, v string) { e.csp.Spec.Body.MaxSize = helpers.GetPointer(ngfAPIv1alpha1.Size(v)) }},
-		{name: "ClientSettingsPolicy.body.timeout", benign: "30s", mustReport: true, set: func(_ *vsCluster, e *c04Extras, v string) { e.csp.Spec.Body.Timeout = helpers.GetPointer(ngfAPIv1alpha1.Duration(v)) }},
-		{name: "ClientSettingsPolicy.keepAlive.time", benign: "1h", mustReport: true, set: func(_ *vsCluster, e *c04Extras, v string) { e.csp.Spec.KeepAlive.Time = helpers.GetPointer(ngfAPIv1alpha1.Duration(v)) }},
+		{name: "NginxProxy.ipFamily", benign: "dual", mustReport: true, set: func(_ *vsCluster, e *c04Extras, v string) {
+			e.np.Spec.IPFamily = helpers.GetPointer(ngfAPIv1alpha1.IPFamilyType(v))
+		}},
+		{name: "ClientSettingsPolicy.body.maxSize", benign: "10m", mustReport: true, set: func(_ *vsCluster, e *c04Extras, v string) {
+			e.csp.Spec.Body.MaxSize = helpers.GetPointer(ngfAPIv1alpha1.Size(v))
+		}},
+		{name: "ClientSettingsPolicy.body.timeout", benign: "30s", mustReport: true, set: func(_ *vsCluster, e *c04Extras, v string) {
+			e.csp.Spec.Body.Timeout = helpers.GetPointer(ngfAPIv1alpha1.Duration(v))
+		}},
+		{name: "ClientSettingsPolicy.keepAlive.time", benign: "1h", mustReport: true, set: func(_ *vsCluster, e *c04Extras, v string) {
+			e.csp.Spec.KeepAlive.Time = helpers.GetPointer(ngfAPIv1alpha1.Duration(v))
+		}},
 		{name: "ClientSettingsPolicy.keepAlive.timeout.server", benign: "60s", mustReport: true, set: func(_ *vsCluster, e *c04Extras, v string) {
 			e.csp.Spec.KeepAlive.Timeout.Server = helpers.GetPointer(ngfAPIv1alpha1.Duration(v))
 		}},
@@ -229,25 +237,41 @@ func c04Leaves() []c04Leaf {
 		{name: "ObservabilityPolicy.tracing.spanName", benign: "ok-span", mustReport: true, set: func(_ *vsCluster, e *c04Extras, v string) { e.op.Spec.Tracing.SpanName = &v }},
 		{name: "ObservabilityPolicy.tracing.spanAttributes.key", benign: "okk", mustReport: true, set: func(_ *vsCluster, e *c04Extras, v string) { e.op.Spec.Tracing.SpanAttributes[0].Key = v }},
 		{name: "ObservabilityPolicy.tracing.spanAttributes.value", benign: "okv", mustReport: true, set: func(_ *vsCluster, e *c04Extras, v string) { e.op.Spec.Tracing.SpanAttributes[0].Value = v }},
-		{name: "ObservabilityPolicy.tracing.strategy", benign: "ratio", mustReport: true, set: func(_ *vsCluster, e *c04Extras, v string) { e.op.Spec.Tracing.Strategy = ngfAPIv1alpha2.TraceStrategy(v) }},
+		{name: "ObservabilityPolicy.tracing.strategy", benign: "ratio", mustReport: true, set: func(_ *vsCluster, e *c04Extras, v string) {
+			e.op.Spec.Tracing.Strategy = ngfAPIv1alpha2.TraceStrategy(v)
+		}},
 		{name: "ObservabilityPolicy.tracing.context", benign: "extract", mustReport: true, set: func(_ *vsCluster, e *c04Extras, v string) {
 			e.op.Spec.Tracing.Context = helpers.GetPointer(ngfAPIv1alpha2.TraceContext(v))
 		}},
-		{name: "UpstreamSettingsPolicy.zoneSize", benign: "1m", mustReport: true, set: func(_ *vsCluster, e *c04Extras, v string) { e.usp.Spec.ZoneSize = helpers.GetPointer(ngfAPIv1alpha1.Size(v)) }},
-		{name: "UpstreamSettingsPolicy.keepAlive.time", benign: "1h", mustReport: true, set: func(_ *vsCluster, e *c04Extras, v string) { e.usp.Spec.KeepAlive.Time = helpers.GetPointer(ngfAPIv1alpha1.Duration(v)) }},
+		{name: "UpstreamSettingsPolicy.zoneSize", benign: "1m", mustReport: true, set: func(_ *vsCluster, e *c04Extras, v string) {
+			e.usp.Spec.ZoneSize = helpers.GetPointer(ngfAPIv1alpha1.Size(v))
+		}},
+		{name: "UpstreamSettingsPolicy.keepAlive.time", benign: "1h", mustReport: true, set: func(_ *vsCluster, e *c04Extras, v string) {
+			e.usp.Spec.KeepAlive.Time = helpers.GetPointer(ngfAPIv1alpha1.Duration(v))
+		}},
 		{name: "UpstreamSettingsPolicy.keepAlive.timeout", benign: "60s", mustReport: true, set: func(_ *vsCluster, e *c04Extras, v string) {
 			e.usp.Spec.KeepAlive.Timeout = helpers.GetPointer(ngfAPIv1alpha1.Duration(v))
 		}},
-		{name: "BackendTLSPolicy.validation.hostname", benign: "ok.example.com", mustReport: true, set: func(_ *vsCluster, e *c04Extras, v string) { e.btp.Spec.Validation.Hostname = gatewayv1.PreciseHostname(v) }},
+		{name: "BackendTLSPolicy.validation.hostname", benign: "ok.example.com", mustReport: true, set: func(_ *vsCluster, e *c04Extras, v string) {
+			e.btp.Spec.Validation.Hostname = gatewayv1.PreciseHostname(v)
+		}},
 		// the field of the path-modifier union that the type does NOT select (CEL bypassed)
 		{name: "HTTPRoute.filter.rewrite.replaceFullPath(unselected)", benign: "/ok", mustReport: false, set: func(*vsCluster, *c04Extras, string) {},
-			post: func(objs []client.Object, v string) { c04Route(objs, "r1").Spec.Rules[0].Filters[2].URLRewrite.Path.ReplaceFullPath = &v }},
+			post: func(objs []client.Object, v string) {
+				c04Route(objs, "r1").Spec.Rules[0].Filters[2].URLRewrite.Path.ReplaceFullPath = &v
+			}},
 		{name: "HTTPRoute.filter.rewrite.replacePrefixMatch(unselected)", benign: "/ok", mustReport: false, set: func(*vsCluster, *c04Extras, string) {},
-			post: func(objs []client.Object, v string) { c04Route(objs, "r1").Spec.Rules[1].Filters[0].URLRewrite.Path.ReplacePrefixMatch = &v }},
+			post: func(objs []client.Object, v string) {
+				c04Route(objs, "r1").Spec.Rules[1].Filters[0].URLRewrite.Path.ReplacePrefixMatch = &v
+			}},
 		{name: "HTTPRoute.filter.redirect.replacePrefixMatch(unselected)", benign: "/ok", mustReport: false, set: func(*vsCluster, *c04Extras, string) {},
-			post: func(objs []client.Object, v string) { c04Route(objs, "r2").Spec.Rules[0].Filters[0].RequestRedirect.Path.ReplacePrefixMatch = &v }},
+			post: func(objs []client.Object, v string) {
+				c04Route(objs, "r2").Spec.Rules[0].Filters[0].RequestRedirect.Path.ReplacePrefixMatch = &v
+			}},
 		{name: "HTTPRoute.filter.redirect.replaceFullPath(unselected)", benign: "/ok", mustReport: false, set: func(*vsCluster, *c04Extras, string) {},
-			post: func(objs []client.Object, v string) { c04Route(objs, "r2").Spec.Rules[1].Filters[0].RequestRedirect.Path.ReplaceFullPath = &v }},
+			post: func(objs []client.Object, v string) {
+				c04Route(objs, "r2").Spec.Rules[1].Filters[0].RequestRedirect.Path.ReplaceFullPath = &v
+			}},
 	}
 }
 
